@@ -8,7 +8,10 @@ evaluator's outcome; TLC accepts it iff the evaluator panicked or produced the s
 same host-call sequence - and the compiled outcome equals RotoSem.Eval (three-way, so a defect common
 to both back ends is still seen).
 """
+import json
+
 import semlib
+from checks import c20mem
 
 PID = "C20"
 
@@ -25,9 +28,16 @@ def run(tier):
               "completed with a value (the others panicked, which the property allows)"),
         assumptions=["main takes its inputs through host functions and returns a scalar",
                      "an evaluator panic (unsupported instruction, debug overflow check, unaligned access) is an allowed outcome"],
-        required_kinds=["un:not", "bin:eq", "bin:lt", "un:neg", "bin:rem", "rec", "ctor", "match"])
+        required_kinds=["un:not", "bin:eq", "bin:lt", "un:neg", "bin:rem", "rec", "ctor", "match"],
+        extra_parts=[c20mem.run_mem])
     return rc
 
 
 def replay(path):
+    try:
+        obj = json.load(open(path)).get("replay") or {}
+    except (OSError, ValueError):
+        obj = {}
+    if isinstance(obj, dict) and obj.get("part") == c20mem.PART:
+        return c20mem.replay_mem(path)
     return run("quick")
